@@ -85,6 +85,9 @@ theorem frame_core (b : Bytes) :
     · have h3 : ¬ b.length < 2 ^ 24 := by omega
       simp [h1, h2, h3]
 
+/-- respellings of the one-byte-length test -/
+theorem lt_254 (n : Nat) : (n < 254) = (n ≤ 253) := by simp only [eq_iff_iff]; omega
+
 /-- the element loop of a vector: accumulating `temp += f v` is the model's `serMany` -/
 theorem foldlM_serMany (f : Val → Option Bytes) (vs : List Val) (acc : Bytes) :
     List.foldlM (m := Option) (fun (temp : Bytes) (v : Val) => (f v).bind fun c => some (temp ++ c)) acc vs =
@@ -119,7 +122,7 @@ theorem serialize_field_fixed (T : Table) (ser) (recf) (e : ETy) (v : Val)
 
 macro "sf_simp" : tactic => `(tactic|
   simp [serialize_field, baseKey, baseLen, TyS.base, serOne, isBool, getBool, isBytes, isInt, isStr, isDict, hasType, getBytes, getInt, fromHex?,
-    intToBytes_signed, intToBytes_unsigned, repeatI_zero, Py.slice, Option.bind_assoc, encodeStr, typeOf?, frame_core, hexAscii_eq])
+    intToBytes_signed, intToBytes_unsigned, repeatI_zero, Py.slice, Option.bind_assoc, encodeStr, typeOf?, lt_254, frame_core, hexAscii_eq])
 
 theorem serialize_field_bytes (T : Table) (ser) (ser') (recf) (h : SerRel ser ser') (e : ETy) (v : Val)
     (he : e = .bytes ∨ e = .string) :
@@ -311,10 +314,9 @@ theorem block_from_bytes_eq (d : Bytes) : Block.from_bytes d = some (BlockIdExt.
 
 theorem block_eq_eq (a b : BlockIdExt) :
     Block.eq b a.fileHash a.rootHash a.seqno a.shard a.workchain = some (a.pyEq b) := by
-  simp only [Block.eq, BlockIdExt.pyEq]
-  split <;> rename_i h
-  · simp; intro h1 h2 h3 h4 h5; simp [h1, h2, h3, h4, h5] at h
-  · simp; simp at h; obtain ⟨h1, h2, h3, h4, h5⟩ := h; exact ⟨⟨⟨⟨h1, h2⟩, h3⟩, h4⟩, h5⟩
+  unfold Block.eq BlockIdExt.pyEq
+  by_cases h1 : a.seqno = b.seqno <;> by_cases h2 : a.workchain = b.workchain <;> by_cases h3 : a.shard = b.shard <;>
+    by_cases h4 : a.rootHash = b.rootHash <;> by_cases h5 : a.fileHash = b.fileHash <;> simp [h1, h2, h3, h4, h5]
 
 theorem block_hash_eq (H : Int × Int × Int × Bytes × Bytes → Int) (a : BlockIdExt) :
     Block.hash H a.fileHash a.rootHash a.seqno a.shard a.workchain = some (a.pyHash H) := rfl
